@@ -31,6 +31,16 @@ expected network is read off the case DESCRIPTION only (`graph_states`); rows ar
 returned order must be the lexicographic label order `_species_and_reaction_order` documents, and every returned kernel vector /
 witness has to annihilate the label-indexed matrix of the described network.
 
+Coverage-gap streams (`noscipy+extras`, `graph-multi`): (1) everything above is repeated in a SIMULATED environment without
+SciPy (`_Env`: the three module globals the guarded import of stoich.py sets are put into the state its `except` arm leaves),
+which executes the SVD null-space fall-back, the basis-scan fall-backs of is_conservative / compute_conservativity /
+is_consistent and their documented verdict None; there the verdicts are also gated against the Lean model of the decision
+logic (no LP oracle is involved); (2) StoichSummary.from_crn with each combination of its two switches, is_full_rank /
+is_underdetermined, has_irreversible_futile_cycles, CRNHyperGraph.stoichiometric_matrix (alias); (3) hand-built
+nx.MultiDiGraph / nx.MultiGraph objects (parallel reactant + product edges, parallel edges of one role), graphs holding nodes
+that are neither species nor reaction and edges that do not join a species to a reaction (stoich.py: "Ignore edges that do not
+connect species to reaction"), nodes whose `bipartite` flag contradicts their `kind` (documented: `kind` decides).
+
 The modelled decision logic (`stoich.logic`) is run on the observed oracle outcomes
 (kernel sizes, sign-definite columns, LP status) and its agreement with the implementation is
 recorded in the counters (not gated: `None` versus `False` is not fixed by the property).
@@ -85,7 +95,15 @@ GATES = ("S entries = produced - consumed (rows by returned species label, colum
          "labelled s and a column labelled r = produced - consumed of s in a reaction labelled r (columns with equal label as a multiset; a "
          "missing stoich counts 1); same for S_minus / S_plus; build_S(graph) = build_S(CRNHyperGraph of the described network) = that "
          "store's incidence_matrix under identical species labels; rank, dimensions, verdicts as above against certificates of the described "
-         "network; every kernel basis / witness annihilates the described network's matrix indexed by the returned labels.")
+         "network; every kernel basis / witness annihilates the described network's matrix indexed by the returned labels.  "
+         "SIMULATED ENVIRONMENT WITHOUT SciPy: all gates above, except that a verdict None is accepted where (and only where) the docstrings "
+         "announce it (is_conservative / compute_conservativity: returned left-kernel basis has >= 2 columns, none sign-definite; is_consistent: "
+         "returned right-kernel basis is non-empty, no column sign-definite); the three verdicts and the presence of a witness equal the Lean "
+         "model of the decision logic (stoich.logic, scipy = false) on the observed basis shapes / sign patterns.  "
+         "StoichSummary.from_crn(conservativity_check=a, consistency_check=b): counts / rank / dimensions = certified values; is_full_rank <=> "
+         "rank = min(n_species, n_reactions); is_underdetermined <=> rank < n_reactions; a requested verdict as the stand-alone call, a verdict "
+         "that was not requested is never True without a certificate; has_irreversible_futile_cycles <=> n_reactions - rank > 0; "
+         "CRNHyperGraph.stoichiometric_matrix(sparse=False) = incidence_matrix(sparse=False).")
 
 
 # =============================================================== exact linear algebra
@@ -397,7 +415,43 @@ def store_matrix(dump, species):
     return np.array([[cols[j][1][i] for j in range(len(cols))] for i in idx], dtype=float).reshape(len(idx), len(cols))
 
 
-def observe_H(H, order=None, warm=(), view_variants=(), view_reuse=None, opts=None):
+
+class _Env:
+    """Context manager around the module globals of `stoich` that stand for the numeric back end.  Default: `linprog` is
+    replaced by the recording pass-through.  noscipy=True SIMULATES AN ENVIRONMENT WITHOUT SciPy (what the `except` arm
+    of the guarded import at the top of stoich.py leaves behind: `_SCIPY_AVAILABLE = False`, `scipy_null_space = None`,
+    `linprog = None`), so that the documented fall-backs (`_svd_null_space`, basis scans, verdict None) are executed."""
+
+    def __init__(self, stoich, rec, noscipy):
+        self.stoich, self.rec, self.noscipy = stoich, rec, noscipy
+
+    def __enter__(self):
+        st = self.stoich
+        self.saved = (st._SCIPY_AVAILABLE, st.scipy_null_space, st.linprog)
+        if self.noscipy:
+            st._SCIPY_AVAILABLE, st.scipy_null_space, st.linprog = False, None, None
+        else:
+            st.linprog = self.rec
+        return self
+
+    def __exit__(self, *a):
+        st = self.stoich
+        st._SCIPY_AVAILABLE, st.scipy_null_space, st.linprog = self.saved
+        return False
+
+
+def observe_extras(X, x, stoich):
+    """Entry points / options of the anchored module that the main blocks never vary (X: store or NetworkX graph):
+    StoichSummary.from_crn with its two switches, the derived properties of the summary, has_irreversible_futile_cycles."""
+    a, b = bool(x["sum"][0]), bool(x["sum"][1])
+    sm = stoich.StoichSummary.from_crn(X, conservativity_check=a, consistency_check=b)
+    d = {k: (v if v is None or isinstance(v, bool) else int(v)) for k, v in sm.to_dict().items()}
+    return {"flags": [a, b], "dict": d, "full_rank": bool(sm.is_full_rank), "underdetermined": bool(sm.is_underdetermined),
+            "str_lines": len(str(sm).splitlines()), "futile": bool(stoich.has_irreversible_futile_cycles(X)),
+            "futile_rtol": bool(stoich.has_irreversible_futile_cycles(X, rtol=1e-11))}
+
+
+def observe_H(H, order=None, warm=(), view_variants=(), view_reuse=None, opts=None, x=None):
     """Run the implementation on one store object.  Everything returned is JSON-able and float-free
     except the recorded residual magnitudes (which stay in Python).
 
@@ -405,7 +459,9 @@ def observe_H(H, order=None, warm=(), view_variants=(), view_reuse=None, opts=No
     warm: entry points queried beforehand with their results thrown away (repeated queries);
     view_variants: indices into VIEW_VARIANTS, each handed to build_S as a NetworkX graph;
     view_reuse: a DiGraph object reused (cleared + refilled) for the default view;
-    opts: non-default tolerances {"tol", "rtol", "eps", "ceps"} for a second round of queries."""
+    opts: non-default tolerances {"tol", "rtol", "eps", "ceps"} for a second round of queries;
+    x: {"noscipy": bool, "sum": [bool, bool]} -- run everything in the simulated no-SciPy environment (`_Env`) and / or
+       query the extra entry points of `observe_extras`."""
     import numpy as np
     from synkit.CRN.Props import stoich
     from synkit.CRN.Petri import semiflows
@@ -415,6 +471,10 @@ def observe_H(H, order=None, warm=(), view_variants=(), view_reuse=None, opts=No
     real = stoich.linprog
     rec = _LinprogRecorder(real)
     raw = {}
+    noscipy = bool(x and x.get("noscipy"))
+    scipy_on = bool(stoich._SCIPY_AVAILABLE) and not noscipy
+    if noscipy:
+        out["noscipy"] = True
 
     def with_calls(key, f, sink):
         a = len(rec.calls)
@@ -450,7 +510,8 @@ def observe_H(H, order=None, warm=(), view_variants=(), view_reuse=None, opts=No
     order = list(order) if order else list(BLOCKS)
     if sorted(order) != sorted(BLOCKS):
         raise Infra(f"bad query order {order}")
-    stoich.linprog = rec
+    env = _Env(stoich, rec, noscipy)
+    env.__enter__()
     try:
         if not dump["species"] or not dump["edges"]:
             try:
@@ -494,8 +555,13 @@ def observe_H(H, order=None, warm=(), view_variants=(), view_reuse=None, opts=No
             oraw["is_cons"] = stoich.is_conservative(H, eps=opts["eps"])
             oraw["compute"] = stoich.compute_conservativity(H, rtol=opts["rtol"], eps=opts["eps"])
             oraw["is_consi"] = stoich.is_consistent(H, eps=opts["ceps"])
+        if x and x.get("sum") is not None:
+            out["extras"] = observe_extras(H, x, stoich)
+            a1, a2, a3 = H.stoichiometric_matrix(sparse=False)          # documented alias of incidence_matrix
+            b1, b2, b3 = raw["inc"]
+            out["extras"]["alias_same"] = bool(list(a1) == list(b1) and list(a2) == list(b2) and np.array_equal(a3, b3))
     finally:
-        stoich.linprog = real
+        env.__exit__()
 
     sp, rules, S = raw["S"]
     sp2, rules2, Sm, Sp = raw["Smp"]
@@ -572,6 +638,10 @@ def observe_H(H, order=None, warm=(), view_variants=(), view_reuse=None, opts=No
         ko = Bo.shape[1] if Bo.size else 0
         o2["lk"] = int(ko)
         o2["lscan"] = [bool(np.all(Bo[:, k] > opts["eps"]) or np.all(Bo[:, k] < -opts["eps"])) for k in range(ko)]
+        Ro = np.atleast_2d(oraw["right"])
+        kr = Ro.shape[1] if Ro.size else 0
+        o2["rk"] = int(kr)
+        o2["rscan"] = [bool(np.all(Ro[:, k] > opts["ceps"]) or np.all(Ro[:, k] < -opts["ceps"])) for k in range(kr)]
         out["opt"] = o2
     # ---- oracle observations for the modelled decision logic
     B = np.atleast_2d(Lb)
@@ -603,7 +673,7 @@ def observe_H(H, order=None, warm=(), view_variants=(), view_reuse=None, opts=No
             clp = {"kind": "infeasible"}
     RB = np.atleast_2d(Rb)
     rk = RB.shape[1] if RB.size else 0
-    out["oracle"] = {"nSpecies": len(sp), "nReactions": len(rules), "scipy": bool(stoich._SCIPY_AVAILABLE), "lk": int(k),
+    out["oracle"] = {"nSpecies": len(sp), "nReactions": len(rules), "scipy": scipy_on, "lk": int(k),
                      "lscan": out["left"].get("signdef", [])[:k] if k else [], "lp": lp, "lp_called": bool(lp_calls),
                      "rk": int(rk), "rscan": out["right"].get("signdef", [])[:rk] if rk else [], "clp": clp,
                      "clp_status": eq_calls[-1].get("status") if eq_calls else None}
@@ -613,7 +683,7 @@ def observe_H(H, order=None, warm=(), view_variants=(), view_reuse=None, opts=No
 def observe(net):
     """One freshly built network; the optional keys `views` / `opts` / `order` of the net select the extra queries."""
     return observe_H(build_net(net), order=net.get("order"), warm=net.get("warm", ()), view_variants=net.get("views", ()),
-                     opts=net.get("opts"))
+                     opts=net.get("opts"), x=net.get("x"))
 
 
 def certificates(dump):
@@ -941,12 +1011,20 @@ def judge_numbers(v, obs, cert, m, n, r, store_msg, store_detail):
                       {"worst_relative_residual": rep["worst_store"], **store_detail}, ()))
     # -- conservativity
     lk = obs["oracle"]["lk"]
-    lp_stage = lk >= 2 and not any(obs["oracle"]["lscan"])
+    lp_stage = lk >= 2 and not any(obs["oracle"]["lscan"]) and obs["oracle"]["scipy"]     # without SciPy there is no LP stage
+    ns = bool(obs.get("noscipy"))
+    tagns = "in the simulated environment without SciPy: " if ns else ""
+
+    def inconclusive_ok(verdict, k, scan):
+        """Without SciPy the docstrings announce None (inconclusive) where the kernel basis has >= 2 columns (left) / >= 1
+        column (right) and none of them is sign-definite: accepted there and only there; True / False are gated as usual."""
+        return ns and verdict is None and k >= 1 and not any(scan)
+
     for name, verdict in [("is_conservative", obs["is_conservative"]), ("compute_conservativity", obs["compute_flag"]),
                           ("summary.is_conservative", s["is_conservative"])]:
-        if (verdict is True) != conservative:
+        if (verdict is True) != conservative and not (lk >= 2 and inconclusive_ok(verdict, lk, obs["oracle"]["lscan"])):
             cls = ["lp_stage"] if (lp_stage and verdict is False and conservative) else []
-            v.append((f"{name} = {verdict} but a strictly positive conservation law "
+            v.append((tagns + f"{name} = {verdict} but a strictly positive conservation law "
                       + ("exists (checked certificate)" if conservative else "does not exist (checked Stiemke alternative)"),
                       {"verdict": verdict, "certificate": cert["cons"], "left_kernel_dim": lk, "sign_definite_columns": obs["oracle"]["lscan"],
                        "lp": obs["oracle"]["lp"]}, cls))
@@ -955,14 +1033,14 @@ def judge_numbers(v, obs, cert, m, n, r, store_msg, store_detail):
         v.append(("compute_conservativity returned a vector that is not a strictly positive conservation law", w, ()))
     # -- consistency
     for name, verdict in [("is_consistent", obs["is_consistent"]), ("summary.is_consistent", s["is_consistent"])]:
-        if (verdict is True) != consistent:
-            v.append((f"{name} = {verdict} but a strictly positive steady flux "
+        if (verdict is True) != consistent and not inconclusive_ok(verdict, obs["oracle"]["rk"], obs["oracle"]["rscan"]):
+            v.append((tagns + f"{name} = {verdict} but a strictly positive steady flux "
                       + ("exists (checked certificate)" if consistent else "does not exist (checked Stiemke alternative)"),
                       {"verdict": verdict, "certificate": cert["consi"], "lp": obs["oracle"]["clp"], "lp_status": obs["oracle"]["clp_status"]}, ()))
     # -- the same questions asked with non-default (still tiny) tolerances
     o2 = obs.get("opt")
     if o2 is not None:
-        tag = "with non-default tolerances " + json.dumps(o2["opts"], sort_keys=True) + ": "
+        tag = tagns + "with non-default tolerances " + json.dumps(o2["opts"], sort_keys=True) + ": "
         if o2["rank"] != r:
             v.append((tag + "stoichiometric_rank differs from the certified exact rank", {"impl": o2["rank"], "exact": r}, ()))
         for name, rep, rows, dim in [("left_nullspace", o2["left"], m, m - r), ("right_nullspace", o2["right"], n, n - r),
@@ -973,9 +1051,9 @@ def judge_numbers(v, obs, cert, m, n, r, store_msg, store_detail):
                 v.append((tag + f"{name}: basis has the wrong dimension", {"shape": rep["shape"], "expected": [rows, dim]}, ()))
             elif rep["worst"] > TOL or rep.get("worst_store", 0.0) > TOL or not rep["independent"]:
                 v.append((tag + f"{name}: not an independent family of vectors annihilating S", {"report": rep}, ()))
-        lp2 = o2["lk"] >= 2 and not any(o2["lscan"])
+        lp2 = o2["lk"] >= 2 and not any(o2["lscan"]) and obs["oracle"]["scipy"]
         for name, verdict in [("is_conservative", o2["is_conservative"]), ("compute_conservativity", o2["compute_flag"])]:
-            if (verdict is True) != conservative:
+            if (verdict is True) != conservative and not (o2["lk"] >= 2 and inconclusive_ok(verdict, o2["lk"], o2["lscan"])):
                 cls = ["lp_stage"] if (lp2 and verdict is False and conservative) else []
                 v.append((tag + f"{name} = {verdict} but a strictly positive conservation law "
                           + ("exists (checked certificate)" if conservative else "does not exist (checked Stiemke alternative)"),
@@ -983,15 +1061,81 @@ def judge_numbers(v, obs, cert, m, n, r, store_msg, store_detail):
         w = o2["witness"]
         if w is not None and not (w["positive"] and w["residual"] <= TOL and w.get("residual_store", 0.0) <= TOL):
             v.append((tag + "compute_conservativity returned a vector that is not a strictly positive conservation law", w, ()))
-        if (o2["is_consistent"] is True) != consistent:
+        if (o2["is_consistent"] is True) != consistent and not inconclusive_ok(o2["is_consistent"], o2["rk"], o2["rscan"]):
             v.append((tag + f"is_consistent = {o2['is_consistent']} but a strictly positive steady flux "
                       + ("exists (checked certificate)" if consistent else "does not exist (checked Stiemke alternative)"),
                       {"verdict": o2["is_consistent"], "certificate": cert["consi"]}, ()))
+    # -- StoichSummary.from_crn with its switches, derived properties, has_irreversible_futile_cycles
+    ex = obs.get("extras")
+    if ex is not None:
+        d, (fa, fb) = ex["dict"], ex["flags"]
+        tg = tagns + f"StoichSummary.from_crn(conservativity_check={fa}, consistency_check={fb}): "
+        if (d["n_species"], d["n_reactions"], d["rank"], d["dim_left_kernel"], d["dim_right_kernel"]) != (m, n, r, m - r, n - r):
+            v.append((tg + "counts / rank / kernel dimensions differ from the certified values",
+                      {"impl": d, "exact": {"n_species": m, "n_reactions": n, "rank": r}}, ()))
+        if ex["full_rank"] != (r == min(m, n)) or ex["underdetermined"] != (r < n):
+            v.append((tg + "is_full_rank / is_underdetermined contradict the certified rank",
+                      {"is_full_rank": ex["full_rank"], "is_underdetermined": ex["underdetermined"], "exact": {"n_species": m, "n_reactions": n, "rank": r}}, ()))
+        vc, vs = d["is_conservative"], d["is_consistent"]
+        # a requested verdict is gated like the stand-alone call; one that was NOT requested must not claim anything
+        bad_c = ((vc is True) != conservative and not (lk >= 2 and inconclusive_ok(vc, lk, obs["oracle"]["lscan"]))) if fa else \
+            (vc is True and not conservative)
+        if bad_c:
+            cls = ["lp_stage"] if (lp_stage and vc is False and conservative) else []
+            v.append((tg + f"is_conservative = {vc} but a strictly positive conservation law "
+                      + ("exists (checked certificate)" if conservative else "does not exist (checked Stiemke alternative)"),
+                      {"verdict": vc, "certificate": cert["cons"], "left_kernel_dim": lk, "sign_definite_columns": obs["oracle"]["lscan"]}, cls))
+        bad_s = ((vs is True) != consistent and not inconclusive_ok(vs, obs["oracle"]["rk"], obs["oracle"]["rscan"])) if fb else \
+            (vs is True and not consistent)
+        if bad_s:
+            v.append((tg + f"is_consistent = {vs} but a strictly positive steady flux "
+                      + ("exists (checked certificate)" if consistent else "does not exist (checked Stiemke alternative)"),
+                      {"verdict": vs, "certificate": cert["consi"]}, ()))
+        if ex["futile"] != (n - r > 0) or ex["futile_rtol"] != (n - r > 0):
+            v.append((tagns + "has_irreversible_futile_cycles differs from (certified right-kernel dimension n_reactions - rank > 0)",
+                      {"impl": [ex["futile"], ex["futile_rtol"]], "exact_dim": n - r}, ()))
+        if ex.get("alias_same") is False:
+            v.append(("CRNHyperGraph.stoichiometric_matrix (documented alias) differs from incidence_matrix", {}, ()))
     return v
+
+
+def judge_logic(obs, logic):
+    """Simulated no-SciPy environment only: no LP is involved, so the verdicts are a function of the returned kernel bases
+    alone and must equal the Lean model of the decision logic (`stoich.logic`, scipy = false) run on the observed basis
+    shapes / sign patterns.  -> list of violations WITHOUT failing input (broken correspondence)."""
+    if not obs.get("noscipy") or logic is None or "oracle" not in obs:
+        return []
+    pairs = [("is_conservative", tri(obs["is_conservative"])), ("compute_flag", tri(obs["compute_flag"])),
+             ("is_consistent", tri(obs["is_consistent"]))]
+    diff = [k for k, val in pairs if logic[k] != val]
+    if (obs["witness"] is None) != (logic["compute_witness"] == "none"):
+        diff.append("compute_witness")
+    if logic["lp_attempted"] or obs["oracle"]["lp_called"]:
+        diff.append("lp_attempted")
+    if not diff:
+        return []
+    return [("in the simulated environment without SciPy the verdicts differ from the model of the decision logic (no LP: basis scans only)",
+             {"fields": diff, "impl": dict(pairs), "model": logic, "oracle": obs["oracle"]}, (), True)]
 
 
 def tri(x):
     return x if x is None else bool(x)
+
+
+def count_x(ctx, obs):
+    """Counters of the simulated no-SciPy environment and of the extra entry points."""
+    if obs.get("noscipy"):
+        o = obs["oracle"]
+        ctx.count("noscipy:queries")
+        ctx.count(f"noscipy:left_kernel_dim:{min(o['lk'], 2)}{'+' if o['lk'] >= 2 else ''}:"
+                  + ("some_sign_definite_column" if any(o["lscan"]) else "no_sign_definite_column"))
+        ctx.count("noscipy:is_conservative=" + str(obs["is_conservative"]))
+        ctx.count("noscipy:is_consistent=" + str(obs["is_consistent"]))
+        ctx.count(f"noscipy:right_kernel_dim:{min(o['rk'], 2)}{'+' if o['rk'] >= 2 else ''}:"
+                  + ("some_sign_definite_column" if any(o["rscan"]) else "no_sign_definite_column"))
+    if "extras" in obs:
+        ctx.count("from_crn:conservativity_check=%s,consistency_check=%s" % tuple(obs["extras"]["flags"]))
+        ctx.count("has_irreversible_futile_cycles=" + str(obs["extras"]["futile"]))
 
 
 def record(ctx, net, obs, cert, lean, logic, tag, canon=None):
@@ -1039,6 +1183,7 @@ def record(ctx, net, obs, cert, lean, logic, tag, canon=None):
         ctx.count("nx_view_variant:" + json.dumps(VIEW_VARIANTS[vv["variant"]], sort_keys=True))
     if "opt" in obs:
         ctx.count("non_default_tolerances")
+    count_x(ctx, obs)
     ctx.count("build_S_equals_model_incl_order" if same else "build_S_differs_from_model_order")
     if not same and len(ctx.extra.setdefault("model_order_divergences", [])) < 3:
         ctx.extra["model_order_divergences"].append({"net": net, "impl": [obs["species"], obs["rules"], obs["S"]],
@@ -1059,6 +1204,8 @@ def record(ctx, net, obs, cert, lean, logic, tag, canon=None):
             ctx.extra["logic_divergences"].append({"net": net, "fields": diff, "oracle": o, "model": logic,
                                                    "impl": {k: val for k, val in pairs}})
     nontrivial = n >= 1 and r >= 1
+    if canon is None and isinstance(net, dict) and net.get("x"):
+        canon = ["x", net["x"], dump]
     ctx.case(dump if canon is None else canon, nontrivial, sample={"stream": tag, "net": net, "rank": r, "conservative": cert["cons"] == "pos",
                                        "consistent": cert["consi"] == "pos"} if n <= 3 else None)
 
@@ -1106,8 +1253,8 @@ def shrink_net(ctx, net, what):
         if not cand["rxns"]:
             return False
         try:
-            (_, obs, cert, lean, _), = evaluate(ctx, [cand], parallel=False)
-            return any(t[0] == what for t in judge(obs, cert, lean))
+            (_, obs, cert, lean, logic), = evaluate(ctx, [cand], parallel=False)
+            return any(t[0] == what for t in judge(obs, cert, lean) + judge_logic(obs, logic))
         except Exception:
             return False
 
@@ -1183,7 +1330,10 @@ def run_nets(ctx, nets, tag, chunk=6000):
     for a in range(0, len(nets), chunk):
         for net, obs, cert, lean, logic in evaluate(ctx, nets[a:a + chunk]):
             record(ctx, net, obs, cert, lean, logic, tag)
-            for what, detail, classes, no_input in map(unpack, judge(obs, cert, lean)):
+            found = judge(obs, cert, lean)
+            if not any(not unpack(t)[2] for t in found):
+                found = found + judge_logic(obs, logic)
+            for what, detail, classes, no_input in map(unpack, found):
                 report(ctx, what, {"net": net}, {**detail, "stream": tag}, classes, no_input, state,
                        lambda case, w: ({"net": shrink_net(ctx, case["net"], w)}, {}))
         if state["unknown"] > 40:
@@ -1311,19 +1461,22 @@ def g_label(nd):
 
 def g_attrs(nd):
     a = {}
-    if nd["flags"] in ("kind", "both"):
+    if nd["flags"] in ("kind", "both", "conflict"):
         a["kind"] = "species" if nd["part"] == "s" else "reaction"
     if nd["flags"] in ("bipartite", "both"):
         a["bipartite"] = 0 if nd["part"] == "s" else 1
+    if nd["flags"] == "conflict":       # `kind` decides when present (documented): the contradicting flag must be ignored
+        a["bipartite"] = 1 if nd["part"] == "s" else 0
     if "label" in nd:
         a["label"] = nd["label"]
     a.update(nd.get("extra") or {})
     return a
 
 
-def g_dump(directed, nodes, edges, declared, touched, present):
+def g_dump(directed, nodes, edges, declared, touched, present, multi=False):
     """The network a graph description stands for, in the shape of a store dump (species = sorted labels; one reaction per
-    declared reaction node, id = e<index of the node in the description>, rule = its label)."""
+    declared reaction node, id = e<index of the node in the description>, rule = its label).  multi: the graph is a
+    MultiGraph / MultiDiGraph: parallel edges are allowed, the coefficients of parallel edges with the same role add up."""
     if not declared or not touched <= set(declared):
         raise Infra("graph case: a node mentioned by an edge has no attributes at query time")
     seen = set()
@@ -1332,7 +1485,7 @@ def g_dump(directed, nodes, edges, declared, touched, present):
         if nodes[e["s"]]["part"] != "s" or nodes[e["r"]]["part"] != "r" or e["role"] not in ("reactant", "product"):
             raise Infra("graph case: edge does not join a species to a reaction")
         key = (e["s"], e["r"], e["role"]) if directed else (e["s"], e["r"])
-        if key in seen:
+        if key in seen and not multi:
             raise Infra("graph case: two edges on the same pair of nodes")
         seen.add(key)
     labels = {i: g_label(nodes[i]) for i in declared if nodes[i]["part"] == "s"}
@@ -1350,7 +1503,12 @@ def g_dump(directed, nodes, edges, declared, touched, present):
                 c = 1 if e.get("stoich") is None else int(e["stoich"])
                 if c < 1:
                     raise Infra("graph case: coefficient < 1")
-                (r if e["role"] == "reactant" else p).append([labels[e["s"]], c])
+                side = r if e["role"] == "reactant" else p
+                hit = next((t for t in side if t[0] == labels[e["s"]]), None)
+                if hit is not None:
+                    hit[1] += c
+                else:
+                    side.append([labels[e["s"]], c])
         if not r and not p:
             raise Infra("graph case: reaction node without edges at query time")
         out.append({"id": f"e{k:03d}", "rule": g_label(nodes[k]), "r": sorted(r), "p": sorted(p)})
@@ -1384,14 +1542,14 @@ def graph_states(case):
             if op[1] not in declared:
                 raise Infra("graph case: label of an absent node")
             nodes[op[1]]["label"] = op[2]
-        elif k == "copy":
-            pass
+        elif k in ("copy", "fn", "fe"):
+            pass        # foreign nodes / edges (neither species nor reaction / not joining a species to a reaction) are no part of the network
         elif k == "perm":
             if sorted(op[1]) != sorted(declared) or sorted(op[2]) != sorted(present) or touched - set(declared):
                 raise Infra("graph case: rebuild does not list the current nodes / edges")
             declared, present = list(op[1]), list(op[2])
         elif k == "q":
-            out.append((g_dump(g["directed"], nodes, edges, declared, touched, present), op[1] if len(op) > 1 else {}))
+            out.append((g_dump(g["directed"], nodes, edges, declared, touched, present, bool(g.get("multi"))), op[1] if len(op) > 1 else {}))
         else:
             raise Infra(f"graph case: unknown operation {k}")
     if not out or case["ops"][-1][0] != "q":
@@ -1430,6 +1588,11 @@ def observe_G(G, dump, plan):
     rec = _LinprogRecorder(real)
     raw = {}
     opts = plan.get("opts")
+    x = plan.get("x")
+    noscipy = bool(x and x.get("noscipy"))
+    scipy_on = bool(stoich._SCIPY_AVAILABLE) and not noscipy
+    if noscipy:
+        out["noscipy"] = True
 
     def with_calls(key, f, sink):
         a = len(rec.calls)
@@ -1462,7 +1625,8 @@ def observe_G(G, dump, plan):
     order = list(plan.get("order") or GBLOCKS)
     if sorted(order) != sorted(GBLOCKS):
         raise Infra(f"bad query order {order}")
-    stoich.linprog = rec
+    env = _Env(stoich, rec, noscipy)
+    env.__enter__()
     try:
         for name in plan.get("warm", ()):
             blocks[name]({})
@@ -1488,8 +1652,10 @@ def observe_G(G, dump, plan):
             oraw["is_cons"] = stoich.is_conservative(G, eps=opts["eps"])
             oraw["compute"] = stoich.compute_conservativity(G, rtol=opts["rtol"], eps=opts["eps"])
             oraw["is_consi"] = stoich.is_consistent(G, eps=opts["ceps"])
+        if x and x.get("sum") is not None:
+            out["extras"] = observe_extras(G, x, stoich)
     finally:
-        stoich.linprog = real
+        env.__exit__()
 
     sp, rules, S = raw["S"]
     sp2, rules2, Sm, Sp = raw["Smp"]
@@ -1555,6 +1721,10 @@ def observe_G(G, dump, plan):
         ko = Bo.shape[1] if Bo.size else 0
         o2["lk"] = int(ko)
         o2["lscan"] = [bool(np.all(Bo[:, k] > opts["eps"]) or np.all(Bo[:, k] < -opts["eps"])) for k in range(ko)]
+        Ro = np.atleast_2d(oraw["right"])
+        kr = Ro.shape[1] if Ro.size else 0
+        o2["rk"] = int(kr)
+        o2["rscan"] = [bool(np.all(Ro[:, k] > opts["ceps"]) or np.all(Ro[:, k] < -opts["ceps"])) for k in range(kr)]
         out["opt"] = o2
     # ---- oracle observations for the modelled decision logic (as for store inputs)
     B = np.atleast_2d(Lb)
@@ -1586,11 +1756,20 @@ def observe_G(G, dump, plan):
             clp = {"kind": "infeasible"}
     RB = np.atleast_2d(Rb)
     rk = RB.shape[1] if RB.size else 0
-    out["oracle"] = {"nSpecies": len(sp), "nReactions": len(rules), "scipy": bool(stoich._SCIPY_AVAILABLE), "lk": int(k),
+    out["oracle"] = {"nSpecies": len(sp), "nReactions": len(rules), "scipy": scipy_on, "lk": int(k),
                      "lscan": out["left"].get("signdef", [])[:k] if k else [], "lp": lp, "lp_called": bool(lp_calls),
                      "rk": int(rk), "rscan": out["right"].get("signdef", [])[:rk] if rk else [], "clp": clp,
                      "clp_status": eq_calls[-1].get("status") if eq_calls else None}
     return out
+
+
+def graph_class(g):
+    import networkx as nx
+
+    multi = bool(g.get("multi"))
+    if g["directed"]:
+        return (nx.MultiDiGraph, "nx.MultiDiGraph") if multi else (nx.DiGraph, "nx.DiGraph")
+    return (nx.MultiGraph, "nx.MultiGraph") if multi else (nx.Graph, "nx.Graph")
 
 
 def work_graph(case):
@@ -1598,17 +1777,19 @@ def work_graph(case):
     -> list of per-query (obs, cert, req, lreq) + the log of concrete calls per query."""
     import gc
     import traceback
-    import networkx as nx
 
     g = case["graph"]
     spec = graph_states(case)            # description only
     nodes, edges = g["nodes"], g["edges"]
-    cls = nx.DiGraph if g["directed"] else nx.Graph
-    name = "nx.DiGraph" if g["directed"] else "nx.Graph"
+    fnodes, fedges = g.get("fnodes") or [], g.get("fedges") or []
+    multi = bool(g.get("multi"))
+    cls, name = graph_class(g)
     G = cls()
     keep, states, calls = [], [], []
     log = [f"G = {name}()"]
     qi = 0
+    ekey = {}                 # multigraphs: key of the edge with description index j
+    f_in, fe_in = [], []      # foreign nodes / edges inserted so far (a rebuilt object gets them again)
 
     def nid(i):
         return nodes[i]["id"]
@@ -1617,6 +1798,19 @@ def work_graph(case):
         e = edges[j]
         s, r = nid(e["s"]), nid(e["r"])
         return (s, r) if e["role"] == "reactant" else (r, s)
+
+    def fend(ref):
+        return nid(ref[1]) if ref[0] == "n" else fnodes[ref[1]]["id"]
+
+    def edata(H, j):
+        u, v = ends(j)
+        return H.edges[u, v, ekey[j]] if multi else H.edges[u, v]
+
+    def add_foreign_edge(H, j, log):
+        fe = fedges[j]
+        u, v = fend(fe["u"]), fend(fe["v"])
+        H.add_edge(u, v, **fe["attrs"])
+        log.append(f"G.add_edge({u!r}, {v!r}, **{fe['attrs']!r})   # does not join a species to a reaction")
 
     for op in case["ops"]:
         k = op[0]
@@ -1631,12 +1825,22 @@ def work_graph(case):
             a = {"role": e["role"]}
             if e.get("stoich") is not None:
                 a["stoich"] = float(e["stoich"]) if e.get("float") else int(e["stoich"])
-            G.add_edge(u, v, **a)
+            key = G.add_edge(u, v, **a)
+            if multi:
+                ekey[op[1]] = key
             log.append(f"G.add_edge({u!r}, {v!r}, **{a!r})")
+        elif k == "fn":
+            fn = fnodes[op[1]]
+            G.add_node(fn["id"], **fn["attrs"])
+            f_in.append(op[1])
+            log.append(f"G.add_node({fn['id']!r}, **{fn['attrs']!r})   # neither species nor reaction")
+        elif k == "fe":
+            add_foreign_edge(G, op[1], log)
+            fe_in.append(op[1])
         elif k == "c":
             u, v = ends(op[1])
-            G.edges[u, v]["stoich"] = op[2]
-            log.append(f"G.edges[{u!r}, {v!r}]['stoich'] = {op[2]!r}")
+            edata(G, op[1])["stoich"] = op[2]
+            log.append(f"G.edges[{u!r}, {v!r}{', ' + repr(ekey[op[1]]) if multi else ''}]['stoich'] = {op[2]!r}")
         elif k == "l":
             G.nodes[nid(op[1])]["label"] = op[2]
             log.append(f"G.nodes[{nid(op[1])!r}]['label'] = {op[2]!r}")
@@ -1648,14 +1852,23 @@ def work_graph(case):
             new = cls()
             for i in op[1]:
                 new.add_node(nid(i), **dict(G.nodes[nid(i)]))
+            nkey = {}
             for j in op[2]:
                 u, v = ends(j)
-                new.add_edge(u, v, **dict(G.edges[u, v]))
+                key = new.add_edge(u, v, **dict(edata(G, j)))
+                if multi:
+                    nkey[j] = key
+            for i in f_in:
+                new.add_node(fnodes[i]["id"], **dict(G.nodes[fnodes[i]["id"]]))
+            sink = []
+            for j in fe_in:
+                add_foreign_edge(new, j, sink)
             if op[3]:
                 keep.append(G)
-            G = new
+            G, ekey = new, nkey
             gc.collect()
-            log.append(f"G = <new {name} with the same nodes inserted in the order {[nid(i) for i in op[1]]!r}, the same edges, "
+            log.append(f"G = <new {name} with the same nodes inserted in the order {[nid(i) for i in op[1]]!r}, the same edges"
+                       + (f", then the {len(f_in)} other nodes / {len(fe_in)} other edges" if f_in or fe_in else "") + ", "
                        + ("the old object kept" if op[3] else "the old object released") + ">")
         elif k == "q":
             dump, plan = spec[qi]
@@ -1756,13 +1969,15 @@ def record_G(ctx, case, k, obs, cert, tag, canon):
         return
     m, n, r = len(dump["species"]), len(dump["edges"]), cert["r"]
     ctx.count(f"{tag}:queries")
-    ctx.count("graph:" + ("DiGraph" if g["directed"] else "Graph(undirected)"))
+    ctx.count("graph:" + (("MultiDiGraph" if g["directed"] else "MultiGraph(undirected)") if g.get("multi") else
+                          ("DiGraph" if g["directed"] else "Graph(undirected)")))
     ctx.count("conservative:" + ("yes" if cert["cons"] == "pos" else "no"))
     ctx.count("consistent:" + ("yes" if cert["consi"] == "pos" else "no"))
     ctx.count(f"left_kernel_dim:{min(m - r, 3)}{'+' if m - r >= 3 else ''}")
     ctx.count(f"right_kernel_dim:{min(n - r, 3)}{'+' if n - r >= 3 else ''}")
     if "opt" in obs:
         ctx.count("non_default_tolerances")
+    count_x(ctx, obs)
     if obs["witness"] is not None:
         ctx.count("witness_returned")
     nontrivial = n >= 1 and r >= 1
@@ -1801,6 +2016,21 @@ def graph_profile(case):
     for op in case["ops"]:
         if op[0] in ("c", "l", "copy", "perm"):
             out.append("graph_edit:" + {"c": "coefficient_in_place", "l": "label_in_place", "copy": "copy", "perm": "rebuilt_other_insertion_order"}[op[0]])
+    if g.get("multi"):
+        pairs = [(e["s"], e["r"]) for e in g["edges"]]
+        same_role = [(e["s"], e["r"], e["role"]) for e in g["edges"]]
+        out.append("graph:multi:parallel_edges:" + ("none" if len(set(pairs)) == len(pairs) else
+                                                     "same_role" if len(set(same_role)) < len(same_role) else "reactant+product"))
+    nf, nfe = sum(1 for op in case["ops"] if op[0] == "fn"), sum(1 for op in case["ops"] if op[0] == "fe")
+    if nf or nfe:
+        out.append("graph:with_nodes_that_are_neither_species_nor_reaction" if nf else "graph:without_foreign_nodes")
+        for op in case["ops"]:
+            if op[0] == "fe":
+                fe = g["fedges"][op[1]]
+                kinds = sorted(("foreign" if ref[0] == "f" else {"s": "species", "r": "reaction"}[nodes[ref[1]]["part"]]) for ref in (fe["u"], fe["v"]))
+                out.append("graph:edge_not_species_reaction:" + "-".join(kinds))
+    if any(n["flags"] == "conflict" for n in nodes):
+        out.append("graph:some_nodes_with_kind_and_contradicting_bipartite_flag")
     return out
 
 
@@ -1818,7 +2048,7 @@ def graph_prefix(case, k):
 
 def graph_failures(ctx, case):
     (states, _), = evaluate_sessions(ctx, [case], parallel=False, worker=work_graph)
-    return [(k, t[0]) for k, (obs, cert, lean, _) in enumerate(states) for t in judge_G(obs, cert, lean)]
+    return [(k, t[0]) for k, (obs, cert, lean, logic) in enumerate(states) for t in judge_G(obs, cert, lean) + judge_logic(obs, logic)]
 
 
 def shrink_graph(ctx, case, what):
@@ -1839,11 +2069,19 @@ def shrink_graph(ctx, case, what):
         ekeep = [j for j, e in enumerate(g["edges"]) if e["s"] != i and e["r"] != i]
         nmap = {a: b for b, a in enumerate(a for a in range(len(g["nodes"])) if a != i)}
         emap = {a: b for b, a in enumerate(ekeep)}
-        g2 = {"directed": g["directed"], "nodes": [n for a, n in enumerate(g["nodes"]) if a != i],
+        g2 = {**g, "nodes": [n for a, n in enumerate(g["nodes"]) if a != i],
               "edges": [{**g["edges"][j], "s": nmap[g["edges"][j]["s"]], "r": nmap[g["edges"][j]["r"]]} for j in ekeep]}
+        fkeep = [j for j, fe in enumerate(g.get("fedges") or []) if ["n", i] not in (list(fe["u"]), list(fe["v"]))]
+        fmap = {a: b for b, a in enumerate(fkeep)}
+        if g.get("fedges"):
+            ren = lambda ref: ["n", nmap[ref[1]]] if ref[0] == "n" else list(ref)
+            g2["fedges"] = [{**g["fedges"][j], "u": ren(g["fedges"][j]["u"]), "v": ren(g["fedges"][j]["v"])} for j in fkeep]
         ops = []
         for op in c["ops"]:
-            if op[0] in ("n", "l"):
+            if op[0] == "fe":
+                if op[1] in fmap:
+                    ops.append(["fe", fmap[op[1]]])
+            elif op[0] in ("n", "l"):
                 if op[1] != i:
                     ops.append([op[0], nmap[op[1]]] + list(op[2:]))
             elif op[0] in ("e", "c"):
@@ -1870,15 +2108,30 @@ def shrink_graph(ctx, case, what):
                 ops.append(op)
         return {"graph": g2, "ops": ops}
 
+    def without_foreign(c):
+        g2 = {k: val for k, val in c["graph"].items() if k not in ("fnodes", "fedges")}
+        return {"graph": g2, "ops": [op for op in c["ops"] if op[0] not in ("fn", "fe")]}
+
     cur = json.loads(json.dumps(case))
     budget = 80
     changed = True
     while changed and budget > 0:
         changed = False
         cands = []
+        if any(op[0] in ("fn", "fe") for op in cur["ops"]):
+            cands.append(without_foreign(cur))
+        if len(cur["ops"][-1]) > 1 and (cur["ops"][-1][1] or {}).get("x"):
+            if set(cur["ops"][-1][1]) - {"x"}:
+                c = json.loads(json.dumps(cur)); c["ops"][-1][1] = {"x": c["ops"][-1][1]["x"]}; cands.append(c)
+            c = json.loads(json.dumps(cur)); c["ops"][-1][1].pop("x"); cands.append(c)
+            if cur["ops"][-1][1]["x"].get("noscipy") and cur["ops"][-1][1]["x"].get("sum") is not None:
+                c = json.loads(json.dumps(cur)); c["ops"][-1][1]["x"]["sum"] = None; cands.append(c)
         for a, op in enumerate(cur["ops"][:-1]):
-            if op[0] in ("q", "c", "l", "copy", "perm"):
+            if op[0] in ("q", "c", "l", "copy", "perm", "fe"):
                 c = json.loads(json.dumps(cur)); del c["ops"][a]; cands.append(c)
+        for i, nd in enumerate(cur["graph"]["nodes"]):
+            if nd["flags"] == "conflict":
+                c = json.loads(json.dumps(cur)); c["graph"]["nodes"][i]["flags"] = "kind"; cands.append(c)
         if len(cur["ops"][-1]) > 1 and cur["ops"][-1][1]:
             c = json.loads(json.dumps(cur)); c["ops"][-1] = ["q", {}]; cands.append(c)
         for i, nd in enumerate(cur["graph"]["nodes"]):
@@ -1920,12 +2173,15 @@ def run_graphs(ctx, cases, tag):
         for key in graph_profile(case):
             ctx.count(key)
         first_bad = None
-        for k, (obs, cert, lean, _) in enumerate(states):
+        for k, (obs, cert, lean, logic) in enumerate(states):
             pref = graph_prefix(case, k)
             record_G(ctx, case, k, obs, cert, tag, ["graph", pref])
             if first_bad is not None:
                 continue
-            for what, detail, classes, no_input in map(unpack, judge_G(obs, cert, lean)):
+            found = judge_G(obs, cert, lean)
+            if not any(not unpack(t)[2] for t in found):
+                found = found + judge_logic(obs, logic)
+            for what, detail, classes, no_input in map(unpack, found):
                 if not classes:
                     first_bad = k
                 report(ctx, what, pref, {**detail, "stream": tag, "failing_query": k,
@@ -2275,7 +2531,7 @@ def _canon_int(s):
     return s.isdigit() and str(int(s)) == s
 
 
-def graph_description(rnd, net, directed):
+def graph_description(rnd, net, directed, multi=False):
     """A bipartite-graph description of the network `net` ({"rxns": [{"r","p","rule"}], "isolated": [..]}): node ids
     (ints / strings / mixed, related or unrelated to the labels), label attributes (present, missing where the id says
     it, int-valued), kind / bipartite flags, reaction labels (distinct, tied, missing), stoich (int, float, missing)."""
@@ -2350,17 +2606,70 @@ def graph_description(rnd, net, directed):
         seen = set()
         for role, side in (("reactant", r0["r"]), ("product", r0["p"])):
             for s, c in side:
-                if (s, role) in seen or (not directed and s in {x for x, _ in seen}):
-                    continue            # an undirected graph holds one edge per species / reaction pair
+                if (s, role) in seen or (not directed and not multi and s in {x for x, _ in seen}):
+                    continue            # an undirected simple graph holds one edge per species / reaction pair
                 seen.add((s, role))
-                e = {"s": sp.index(s), "r": len(sp) + k, "role": role, "stoich": int(c)}
-                if c == 1 and rnd.random() < 0.3:
-                    e["stoich"] = None  # attribute missing: documented default 1
-                elif rnd.random() < 0.15:
-                    e["float"] = True
-                edges.append(e)
+                parts = [int(c)]
+                if multi and c >= 2 and rnd.random() < 0.4:
+                    c1 = rnd.randint(1, c - 1)          # parallel edges with the same role: their coefficients add up
+                    parts = [c1, int(c) - c1]
+                for c0 in parts:
+                    e = {"s": sp.index(s), "r": len(sp) + k, "role": role, "stoich": c0}
+                    if c0 == 1 and rnd.random() < 0.3:
+                        e["stoich"] = None  # attribute missing: documented default 1
+                    elif rnd.random() < 0.15:
+                        e["float"] = True
+                    edges.append(e)
     # a reaction that lost all its edges cannot happen: every generated reaction has a non-empty side
-    return {"directed": directed, "nodes": nodes, "edges": edges}, len(sp)
+    g = {"directed": directed, "nodes": nodes, "edges": edges}
+    if multi:
+        g["multi"] = True
+    return g, len(sp)
+
+
+FOREIGN_ATTRS = [{}, {}, {"kind": "compartment"}, {"kind": "compartment", "bipartite": 0}, {"kind": "annotation", "bipartite": 1},
+                 {"bipartite": 2}, {"label": "A"}, {"kind": "Species"}, {"kind": None, "bipartite": None}]
+FOREIGN_EDGE_ATTRS = [{}, {"role": "reactant", "stoich": 2}, {"role": "product", "stoich": 3}, {"role": "reactant"}, {"role": "product"},
+                      {"role": "in", "stoich": 1}, {"stoich": 5}]
+
+
+def add_foreign(rnd, g):
+    """Nodes that are neither species nor reaction (no / other `kind`, no / other `bipartite` flag) and edges that do not join
+    a species to a reaction (species-species, reaction-reaction, anything-foreign), carrying role / stoich data like real
+    edges.  The documented reading: such nodes get no row / column, such edges are ignored."""
+    nodes = g["nodes"]
+    used = {nd["id"] for nd in nodes}
+    fn = []
+    for k in range(rnd.choice([0, 1, 1, 2])):
+        nid_ = next(c for c in [rnd.choice([f"F{k}", 1000 + k, f"S:f{k}", -100 - k]), f"foreign{k}", 2000 + k] if c not in used)
+        used.add(nid_)
+        attrs = dict(rnd.choice(FOREIGN_ATTRS))
+        if "label" in attrs:            # a label some species carries too: the node is still no species
+            attrs["label"] = g_label(rnd.choice([nd for nd in nodes if nd["part"] == "s"]))
+        fn.append({"id": nid_, "attrs": attrs})
+    sps = [i for i, nd in enumerate(nodes) if nd["part"] == "s"]
+    rs = [i for i, nd in enumerate(nodes) if nd["part"] == "r"]
+    fe, seen = [], set()
+    for _ in range(rnd.choice([1, 1, 2, 3])):
+        c = rnd.random()
+        if c < 0.35 and len(sps) >= 2:
+            u, v = [["n", i] for i in rnd.sample(sps, 2)]
+        elif c < 0.5 and len(rs) >= 2:
+            u, v = [["n", i] for i in rnd.sample(rs, 2)]
+        elif fn:
+            u = ["f", rnd.randrange(len(fn))]
+            v = ["n", rnd.choice(sps + rs)] if rnd.random() < 0.8 or len(fn) < 2 else ["f", (u[1] + 1) % len(fn)]
+            if rnd.random() < 0.5:
+                u, v = v, u
+        else:
+            continue
+        key = frozenset((tuple(u), tuple(v)))
+        if key in seen or len(key) < 2:
+            continue                    # one foreign edge per pair of nodes; no self-loops
+        seen.add(key)
+        fe.append({"u": u, "v": v, "attrs": dict(rnd.choice(FOREIGN_EDGE_ATTRS))})
+    g["fnodes"], g["fedges"] = fn, fe
+    return g
 
 
 def insertion_ops(rnd, g, node_ids, edge_ids, mode):
@@ -2495,6 +2804,68 @@ def random_graph_case(rnd):
     return {"graph": g, "ops": ops}
 
 
+def x_plan(rnd, p_noscipy):
+    """Extra queries: the simulated no-SciPy environment and the switches of StoichSummary.from_crn."""
+    return {"noscipy": rnd.random() < p_noscipy, "sum": [rnd.random() < 0.5, rnd.random() < 0.5]}
+
+
+def random_graph_case2(rnd):
+    """Hand-built graphs of the remaining NetworkX classes and shapes: MultiDiGraph / MultiGraph (parallel reactant + product
+    edges of a catalyst, parallel edges with the same role), nodes that are neither species nor reaction, edges that do not
+    join a species to a reaction, nodes whose `bipartite` flag contradicts their `kind`; DiGraph / Graph with the same extras."""
+    c = rnd.random()
+    if c < 0.35:
+        net = tiny_net(rnd)
+    elif c < 0.75:
+        net = random_net(rnd)
+    elif c < 0.9:
+        net = rare_net(rnd)
+        net = {"rxns": net["rxns"], "isolated": net.get("isolated", [])}
+    else:
+        net = rnd.choice(textbook(rnd))
+    directed = rnd.random() < 0.5
+    multi = rnd.random() < 0.65
+    g, n_sp = graph_description(rnd, net, directed, multi=multi)
+    nodes, edges = g["nodes"], g["edges"]
+    if rnd.random() < 0.3:
+        for nd in nodes:
+            if nd["flags"] in ("both", "kind") and rnd.random() < 0.6:
+                nd["flags"] = "conflict"
+    if not multi or rnd.random() < 0.6:
+        add_foreign(rnd, g)
+    labels = [g_label(nd) for nd in nodes]
+    ops = insertion_ops(rnd, g, list(range(len(nodes))), list(range(len(edges))), rnd.choice(INSERTION_MODES))
+    declared, present = [op[1] for op in ops if op[0] == "n"], [op[1] for op in ops if op[0] == "e"]
+    # foreign nodes / edges go in anywhere (an edge may come before the attributes of its end points)
+    for i in range(len(g.get("fnodes") or [])):
+        ops.insert(rnd.randint(0, len(ops)), ["fn", i])
+    for j in range(len(g.get("fedges") or [])):
+        ops.insert(rnd.randint(0, len(ops)), ["fe", j])
+    if rnd.random() < 0.25:
+        ops.append(["q", {"x": x_plan(rnd, 0.3)}])
+    if rnd.random() < 0.45:
+        ops += graph_edits(rnd, g, declared, present, labels)
+    plan = graph_query_plan(rnd)
+    plan["x"] = x_plan(rnd, 0.3)
+    ops.append(["q", plan])
+    return {"graph": g, "ops": ops}
+
+
+def x_nets(rnd, quick):
+    """Store inputs for the simulated no-SciPy environment / the extra entry points: the textbook families, the exhaustive
+    single reactions (a sample in quick), tiny pairs, random and rare networks."""
+    k = 1 if quick else 8
+    rs = exhaustive_reactions()
+    nets = [dict(n) for n in textbook(rnd)]
+    nets += [{"rxns": [code_to_rx(c)]} for c in (rnd.sample(rs, 150) if quick else rs)]
+    nets += [tiny_net(rnd) for _ in range(250 * k)]
+    nets += [random_net(rnd) for _ in range(350 * k)]
+    nets += [rare_net(rnd) for _ in range(100 * k)]
+    for n in nets:
+        n["x"] = x_plan(rnd, 0.7)
+    return nets
+
+
 def tiny_graph_cases(rnd, n_nets):
     """<= 2 reactions over A, B, C with coefficients in {0,1,2}; the three species nodes inserted in EVERY order, as a DiGraph
     and as an undirected Graph; integer node ids in insertion order (so id order, insertion order and label order all differ),
@@ -2559,6 +2930,14 @@ def setup(ctx):
         "edge; at most one edge per (species, reaction, role) in a DiGraph and per (species, reaction) in an undirected Graph; arcs point "
         "species -> reaction for reactants and reaction -> species for products; coefficients are positive integers (int, integral float, or "
         "absent = 1); the order among equally labelled reactions is not gated (columns compared as a multiset per label)",
+        "coverage-gap streams: an environment without SciPy is SIMULATED by setting the module globals `_SCIPY_AVAILABLE` / `scipy_null_space` / "
+        "`linprog` of synkit.CRN.Props.stoich to False / None / None for the duration of the queries (exactly what the guarded import leaves when "
+        "SciPy cannot be imported); there the documented answer None ('inconclusive') is accepted although a witness exists, but only under the "
+        "condition the docstring states (see GATES) -- 'exactly when' cannot be met without an LP solver and the code says so",
+        "hand-built multigraphs: parallel edges with the same role between a species and a reaction stand for the sum of their coefficients; "
+        "a node is a species / reaction iff `kind` says so, or `kind` is absent (None) and `bipartite` is 0 / 1 (documented in "
+        "_split_species_reactions: `kind` decides when present); every other node has no row / column and every edge that does not join a "
+        "species to a reaction is no part of the network, whatever role / stoich data it carries (documented in build_S_minus_plus)",
         "non-default tolerances are kept within 1e-13..1e-8 (rank / null space), 1e-8..1e-7 (conservativity margin) and < 1 (consistency margin, "
         "the LP bounds v >= 1): for the tiny integer matrices generated here the property's answers do not depend on them",
     ]
@@ -2591,7 +2970,18 @@ def setup(ctx):
                     "interleaved / descending / sorted (control) / reactions first; 40 % built in two stages (part of the network queried, the "
                     "rest appended to the SAME object, queried again), in-place coefficient and label changes, G.copy(), rebuilt objects with "
                     "another insertion order (old object kept or released), per-query random order of the entry points, warm-up queries, "
-                    "non-default tolerances. GATES: " + GATES)
+                    "non-default tolerances; "
+                    "NOSCIPY+EXTRAS (~900 quick / ~6400 thorough store networks: the textbook families, single reactions over A,B,C (150 sampled "
+                    "in quick, all 728 in thorough), tiny pairs, random and rare networks): 70 % queried in the simulated environment without "
+                    "SciPy, every case with StoichSummary.from_crn under a random combination of its two switches, the derived summary "
+                    "properties, has_irreversible_futile_cycles and the store's stoichiometric_matrix alias; "
+                    "GRAPH-MULTI (400 quick / 4000 thorough graphs, ~1.25 queries each): tiny / random / rare / textbook networks as hand-built "
+                    "MultiDiGraph / MultiGraph (65 %; a catalyst as parallel reactant + product edges, 40 % of the coefficients >= 2 split into "
+                    "two parallel edges of one role) or DiGraph / Graph, 30 % with nodes whose bipartite flag contradicts their kind, most with "
+                    "0-2 nodes that are neither species nor reaction (no flags, other kind with / without a bipartite flag, bipartite = 2, only "
+                    "a label equal to a species label) and 1-3 edges species-species / reaction-reaction / to or between such nodes carrying "
+                    "role / stoich data, inserted at random positions; in-place edits / copies / rebuilt objects as in GRAPH; 30 % of the "
+                    "queries in the simulated environment without SciPy, all with the from_crn switches. GATES: " + GATES)
     ctx.nontrivial_rule = ("distinct stored network (species + reactions with ids and rules) with at least one reaction and certified rank >= 1; "
                            "a session state is identified by the whole history (base network, edits, query plan) that led to it; "
                            "a query on a hand-built graph by the graph description and the operations up to the query")
@@ -2636,6 +3026,11 @@ def run(ctx):
         #    order, node ids and labels unrelated; extended / edited / copied / rebuilt objects queried again
         run_graphs(ctx, tiny_graph_cases(ctx.rnd, 25 if ctx.quick else 300), "graph-tiny")
         run_graphs(ctx, [random_graph_case(ctx.rnd) for _ in range(500 if ctx.quick else 5000)], "graph")
+        # -- coverage-gap streams: (1) the fall-backs taken in an environment without SciPy (SVD null space, basis scans, verdict
+        #    None) and the entry points / switches the blocks above never vary (StoichSummary.from_crn flags, derived properties,
+        #    has_irreversible_futile_cycles); (2) multigraph classes, nodes / edges outside the species-reaction scheme
+        run_nets(ctx, x_nets(ctx.rnd, ctx.quick), "noscipy+extras")
+        run_graphs(ctx, [random_graph_case2(ctx.rnd) for _ in range(400 if ctx.quick else 4000)], "graph-multi")
     finally:
         close_pool()
     ctx.violations.sort(key=lambda x: bool(x["no_input"]))     # failing inputs first (stable)
